@@ -163,9 +163,11 @@ Lemma VamInvU_updateS v v' U X lr l0 l' (S : list Z) :
        (exists s a', rg_tag rg = Some s /\ In s S /\ slot_is v' s a' /\ a_kind a' = 1 /\ a_lref a' = lr /\ a_blk a' = bk_id b' /\
                      a_handle a' = rg_handle rg)) ->
   (forall s a', In s S -> slot_is v' s a' -> Bits.pow2 (a_align a')) ->
+  bl_minalign l' = bl_minalign l0 ->
+  (forall s a' l1, In s S -> slot_is v' s a' -> get_blist v' (a_lref a') = Some l1 -> bl_minalign l1 <= a_align a') ->
   VamInvU c v' U X.
 Proof.
-  intros HI H0 Hg' Hd' Hm' Hll Hdl Hpu Hpi Hnu Hnp Hwf Hty Hfw Hbw Hoth0 HSX Hold Hnew Hkeep Hreg Hpow.
+  intros HI H0 Hg' Hd' Hm' Hll Hdl Hpu Hpi Hnu Hnp Hwf Hty Hfw Hbw Hoth0 HSX Hold Hnew Hkeep Hreg Hpow Hmal HminS.
   inv_fields HI.
   assert (Hcases := get_set_blist_cases v lr l0 l').
   assert (Hoth : forall s1 a1, ~ In s1 S -> (slot_is v' s1 a1 <-> slot_is v s1 a1)).
@@ -244,6 +246,10 @@ Proof.
   - rewrite Hm'. auto.
   - rewrite Hm'. auto.
   - intros s1 a1 S1 K1. destruct (in_dec Z.eq_dec s1 S) as [Hin|Hn]; [eapply Hpow; eauto|apply Hoth in S1; eauto].
+  - intros s1 a1 l1 S1 HnX K1 G1. destruct (in_dec Z.eq_dec s1 S) as [Hin|Hn]; [eapply HminS; eauto|].
+    apply Hoth in S1; [|exact Hn]. rewrite Hg' in G1. destruct (Hcases _ _ H0 G1) as [(E & ->)|(Hne & Hgo)].
+    + rewrite Hmal. apply (I_ma s1 a1 l0 S1 HnX K1). rewrite E. exact H0.
+    + eapply I_ma; eauto.
 Qed.
 
 
@@ -542,7 +548,13 @@ Proof.
         split; [destruct Hsh as (E & _); congruence|congruence].
     - intros s1 a1 [<-|[<-|[]]] S1.
       + assert (a1 = swapped a b) by (destruct S1, Sa3; congruence). subst a1. cbn [swapped a_align]. eapply vi_align; eauto.
-      + assert (a1 = swapped b a) by (destruct S1, Sb3; congruence). subst a1. cbn [swapped a_align]. eapply vi_align; eauto. }
+      + assert (a1 = swapped b a) by (destruct S1, Sb3; congruence). subst a1. cbn [swapped a_align]. eapply vi_align; eauto.
+    - reflexivity.
+    - intros s1 a1 lx [<-|[<-|[]]] S1 G1.
+      + assert (a1 = swapped a b) by (destruct S1, Sa3; congruence). subst a1. cbn [swapped a_align a_lref] in *.
+        rewrite Lb, Hg3 in G1. injection G1 as <-. cbn. eapply (vi_minalign _ _ _ _ HI s a l); eauto. rewrite La; exact Hg.
+      + assert (a1 = swapped b a) by (destruct S1, Sb3; congruence). subst a1. cbn [swapped a_align a_lref] in *.
+        rewrite La, Hg3 in G1. injection G1 as <-. cbn. eapply (vi_minalign _ _ _ _ HI t b l); eauto. rewrite Lb; exact Hg. }
   split; [exact I3|]. split.
   - (* lists frame *)
     assert (LF1 : lists_frame v v1) by (unfold v1; rewrite (put_block_eq _ _ _ _ Hg); eapply lists_frame_set_blist; [exact Hg|apply blist_cfg_same_set_blocks]).
